@@ -9,7 +9,7 @@
      out    ::= (4 (((name obj) ...))) | (4 ())      -- () = CodeError                                               *)
 From Coq Require Import NArith ZArith List Bool.
 Import ListNotations.
-From PG Require Import Common.Tr Gen.PermTable Model.Perm Model.EvalModel Gen.EvalShape Model.EvalOut Gen.EvalOut.
+From PG Require Import Common.Tr Gen.PermTable Model.Perm Model.EvalModel Gen.EvalShape Model.EvalOut Gen.EvalOutPlan.
 Local Open Scope N_scope.
 
 Definition d_target (t : tr) : option target :=
